@@ -304,14 +304,29 @@ theorem hmacGenFull_spec (key : Bytes) : ∀ (n : Nat) (st : HmacGenSt), st.keyS
       rw [List.length_append, i2]
       simp only [Spec.hmacStep, Belt.hmac_length]; omega
 
-theorem hmacGenN_snoc (key iv : Bytes) : ∀ (n : Nat) (r : Bytes),
+/-- generic iteration (used to unfold the LAST step of `Spec.hmacGenN`) -/
+def genN (f : Bytes → Bytes × Bytes) : Nat → Bytes → Bytes × Bytes
+  | 0, r => (r, [])
+  | n + 1, r => let a := f r; let b := genN f n a.1; (b.1, a.2 ++ b.2)
+
+theorem genN_snoc (f : Bytes → Bytes × Bytes) : ∀ (n : Nat) (r : Bytes),
+    genN f (n + 1) r = ((f (genN f n r).1).1, (genN f n r).2 ++ (f (genN f n r).1).2) := by
+  intro n
+  induction n with
+  | zero => intro r; simp [genN]
+  | succ n ih => intro r; rw [genN, ih]; simp only [genN, List.append_assoc]
+
+theorem hmacGenN_eq (key iv : Bytes) : ∀ n r, Spec.hmacGenN key iv n r = genN (Spec.hmacStep key iv) n r := by
+  intro n
+  induction n with
+  | zero => intro r; rfl
+  | succ n ih => intro r; simp only [Spec.hmacGenN, genN, ih]
+
+theorem hmacGenN_snoc (key iv : Bytes) (n : Nat) (r : Bytes) :
     Spec.hmacGenN key iv (n + 1) r =
       ((Spec.hmacStep key iv (Spec.hmacGenN key iv n r).1).1,
         (Spec.hmacGenN key iv n r).2 ++ (Spec.hmacStep key iv (Spec.hmacGenN key iv n r).1).2) := by
-  intro n
-  induction n with
-  | zero => intro r; simp only [Spec.hmacGenN, List.append_nil, List.nil_append]
-  | succ n ih => intro r; rw [Spec.hmacGenN, ih]; simp only [Spec.hmacGenN, List.append_assoc]
+  rw [hmacGenN_eq, hmacGenN_eq, genN_snoc]
 
 theorem hmacGenGen_spec (key : Bytes) (st : HmacGenSt) (count : Nat) (hi : st.Inv key) (h0 : st.reserved = 0) :
     (hmacGenGen st count).2 = (Spec.hmacGenN key st.iv ((count + 31) / 32) st.r).2.take count ∧
@@ -348,5 +363,93 @@ theorem hmacGenGen_spec (key : Bytes) (st : HmacGenSt) (count : Nat) (hi : st.In
       rw [List.take_append, List.take_of_length_le hq2, hc]
     · simp only [HmacGenSt.tail]
       rw [List.drop_append, List.drop_eq_nil_of_le hq2, List.nil_append, hc, hc2]
+
+
+theorem HmacGenSt.tail_len {key : Bytes} {st : HmacGenSt} (hi : st.Inv key) : st.tail.length = st.reserved := by
+  have := hi.res
+  simp only [HmacGenSt.tail, List.length_drop, hi.block]; omega
+
+theorem hmacServe_le (key iv r tail : Bytes) (count : Nat) (h : count ≤ tail.length) :
+    Spec.hmacServe key iv r tail count = (r, tail.drop count, tail.take count, []) := by
+  unfold Spec.hmacServe; rw [if_pos h]
+
+theorem hmacServe_gt (key iv r tail : Bytes) (count : Nat) (h : ¬ count ≤ tail.length) :
+    Spec.hmacServe key iv r tail count =
+      ((Spec.hmacGenN key iv ((count - tail.length + 31) / 32) r).1,
+        (Spec.hmacGenN key iv ((count - tail.length + 31) / 32) r).2.drop (count - tail.length),
+        tail ++ (Spec.hmacGenN key iv ((count - tail.length + 31) / 32) r).2.take (count - tail.length),
+        (Spec.hmacGenN key iv ((count - tail.length + 31) / 32) r).2) := by
+  unfold Spec.hmacServe; rw [if_neg h]
+
+/-- **`brngHMACStepR` = the buffering rule on top of the standard's brng-hmac steps** -/
+theorem hmacGenStepR_spec (key : Bytes) (st : HmacGenSt) (count : Nat) (hi : st.Inv key) :
+    (hmacGenStepR count st).2 = (Spec.hmacServe key st.iv st.r st.tail count).2.2.1 ∧
+      (hmacGenStepR count st).1.Inv key ∧ (hmacGenStepR count st).1.iv = st.iv ∧
+      (hmacGenStepR count st).1.r = (Spec.hmacServe key st.iv st.r st.tail count).1 ∧
+      (hmacGenStepR count st).1.tail = (Spec.hmacServe key st.iv st.r st.tail count).2.1 := by
+  have htl := HmacGenSt.tail_len hi
+  have hres := hi.res
+  by_cases hr0 : st.reserved = 0
+  · have ht : st.tail = [] := List.length_eq_zero_iff.mp (by rw [htl, hr0])
+    have hm : hmacGenStepR count st = hmacGenGen st count := by
+      simp only [hmacGenStepR, hr0, ne_eq, not_true_eq_false, if_false]
+    obtain ⟨g1, g2, g3, g4, g5⟩ := hmacGenGen_spec key st count hi hr0
+    rw [hm, ht]
+    by_cases hb : count = 0
+    · subst hb
+      simp only [Nat.zero_add, Nat.reduceDiv, Spec.hmacGenN, List.take_nil, List.drop_nil] at g1 g4 g5
+      rw [hmacServe_le key st.iv st.r [] 0 (Nat.le_refl _)]
+      exact ⟨g1, g2, g3, g4, g5⟩
+    · have hnle : ¬ (count ≤ ([] : Bytes).length) := by simp only [List.length_nil]; omega
+      rw [hmacServe_gt key st.iv st.r [] count hnle]
+      simp only [List.length_nil, Nat.sub_zero, List.nil_append]
+      exact ⟨g1, g2, g3, g4, g5⟩
+  · by_cases hge : st.reserved ≥ count
+    · have hm : hmacGenStepR count st =
+          ({ st with reserved := st.reserved - count }, (st.block.drop (32 - st.reserved)).take count) := by
+        simp only [hmacGenStepR, ne_eq, hr0, not_false_eq_true, if_true, hge]
+      have hle : count ≤ st.tail.length := by omega
+      rw [hm, hmacServe_le key st.iv st.r st.tail count hle]
+      refine ⟨rfl, ⟨hi.block, by simp only; omega, hi.key⟩, rfl, rfl, ?_⟩
+      simp only [HmacGenSt.tail, List.drop_drop]
+      congr 1; omega
+    · have hm : hmacGenStepR count st =
+          ((hmacGenGen { st with reserved := 0 } (count - st.reserved)).1,
+            (st.block.drop (32 - st.reserved)).take st.reserved ++
+              (hmacGenGen { st with reserved := 0 } (count - st.reserved)).2) := by
+        simp only [hmacGenStepR, ne_eq, hr0, not_false_eq_true, if_true, hge, if_false]
+      have hi0 : ({ st with reserved := 0 } : HmacGenSt).Inv key := ⟨hi.block, Nat.zero_lt_succ _, hi.key⟩
+      obtain ⟨g1, g2, g3, g4, g5⟩ := hmacGenGen_spec key _ (count - st.reserved) hi0 rfl
+      have hnle : ¬ (count ≤ st.tail.length) := by omega
+      have hfull : (st.block.drop (32 - st.reserved)).take st.reserved = st.tail := by
+        apply List.take_of_length_le
+        show st.tail.length ≤ st.reserved
+        rw [htl]; exact Nat.le_refl _
+      rw [hm, hfull, hmacServe_gt key st.iv st.r st.tail count hnle, htl]
+      exact ⟨by rw [g1], g2, g3, g4, g5⟩
+
+def hmacGenRun : List Nat → HmacGenSt → HmacGenSt × List Bytes
+  | [], st => (st, [])
+  | n :: ns, st =>
+    let a := hmacGenStepR n st
+    let c := hmacGenRun ns a.1
+    (c.1, a.2 :: c.2)
+
+theorem hmacGenRun_spec (key : Bytes) : ∀ (ns : List Nat) (st : HmacGenSt), st.Inv key →
+    (hmacGenRun ns st).2 = (Spec.hmacServeAll key st.iv st.r st.tail ns).2.2.1 := by
+  intro ns
+  induction ns with
+  | nil => intro st _; rfl
+  | cons n ns ih =>
+    intro st hi
+    obtain ⟨s1, s2, s3, s4, s5⟩ := hmacGenStepR_spec key st n hi
+    simp only [hmacGenRun, Spec.hmacServeAll]
+    rw [ih _ s2, s1, s3, s4, s5]
+
+theorem hmacGenStart_inv (key iv : Bytes) :
+    (hmacGenStart key iv).Inv key ∧ (hmacGenStart key iv).iv = iv ∧
+      (hmacGenStart key iv).r = Spec.hmacInit key iv ∧ (hmacGenStart key iv).tail = [] := by
+  refine ⟨⟨by simp [hmacGenStart, zeros], by simp [hmacGenStart], rfl⟩, rfl, rfl, ?_⟩
+  simp [HmacGenSt.tail, hmacGenStart, zeros]
 
 end Bee2V.C03
